@@ -126,7 +126,16 @@ IPv4Reassembler::PacketStatus IPv4Reassembler::process(PDU& pdu) {
             Internals::IPv4Stream& stream = streams_[key];
             stream.add_fragment(ip);
             if (stream.is_complete()) {
-                PDU* pdu = stream.allocate_pdu();
+                PDU* pdu;
+                try {
+                    pdu = stream.allocate_pdu();
+                }
+                catch (...) {
+                    // The payload can't be parsed as its protocol. Release the stream,
+                    // otherwise it stays complete forever and every duplicate throws again
+                    streams_.erase(key);
+                    throw;
+                }
                 // Use all field values from the first fragment
                 *ip = stream.first_fragment();
 
